@@ -18,7 +18,10 @@ Check2 ==
 \* values: all five special characters, leading/trailing blanks, tab, newline, a non-ASCII placeholder, look-alikes
 cVals == [names |-> {N(<<"a">>), N(<<"B">>)}, anames |-> {N(<<"x">>), N(<<"k", "-", "x">>)},
           avals |-> {<<"<", "&", ">">>, <<"\"", "'">>, <<" ", "7", " ">>, <<"~", "'">>, BigNum},
-          texts |-> {<<"<", "&", ">">>, <<"\"", "'">>, <<" ", "v", "\t">>, Big19, <<"-", "I", "n", "f", "i", "n", "i", "t", "y">>, <<"~", "&", "\n", "~">>, <<"\n">>}, maxattrs |-> 1, comments |-> FALSE]
+          texts |-> {<<"<", "&", ">">>, <<"\"", "'">>, <<" ", "v", "\t">>, <<"7">>, <<"~", "&", "\n", "~">>, <<"\n">>}, maxattrs |-> 1, comments |-> FALSE]
+\* numerals beyond int64, the long spelling of negative infinity (both under the cast flag), tab and newline inside an attribute value
+cVals2 == [names |-> {N(<<"a">>)}, anames |-> {N(<<"x">>)}, avals |-> {<<"a", "\t", "\n", "b">>, <<"7">>},
+           texts |-> {Big19, <<"-", "I", "n", "f", "i", "n", "i", "t", "y">>, <<"7">>}, maxattrs |-> 1, comments |-> FALSE]
 \* values with exactly ONE kind of special character each (an escaping routine that looks for "any special" first)
 cVals1 == [names |-> {N(<<"a">>)}, anames |-> {N(<<"x">>), N(<<"y">>)},
            avals |-> {<<"\"">>, <<"'">>, <<"<">>, <<">">>, <<"&">>, <<"v">>},
